@@ -70,6 +70,13 @@ StaticAlarms(c) ==
                      O.fblocks[k].id, O.fblocks[k], "one instruction, one predecessor, no successor")])
     \o V(O.bbs_before = O.bbs_after, "c12.contract-graph-changed", "", -1, O.bbs_after, O.bbs_before)
     \o V(O.same_alone, "c12.depends-on-other-functions", "", -1, O.diff_alone, "equal contexts")
+    \* the same path named as a function of a group configuration (together with all other paths of the program):
+    \* init_tealer_from_config must build the function construct_function builds for that path alone
+    \o V(O.via.ok, "c12.config-function", "", -1, O.via.exc, "the configuration is built")
+    \o (IF ~O.via.ok THEN << >>
+        ELSE V(O.via.shape = O.direct.shape /\ O.via.name = O.direct.name, "c12.config-function", "shape", -1,
+               << O.via.name, O.via.shape >>, << O.direct.name, O.direct.shape >>)
+          \o V(O.via.ctx = O.direct.ctx, "c12.config-function", "contexts", -1, "contexts differ", "equal contexts"))
 
 VARIABLES pid, ei, m
 vars == << pid, ei, m >>
